@@ -406,3 +406,61 @@ Qed.
 Lemma Forall2_map_same {A B C : Type} (R : B -> C -> Prop) (f : A -> B) (g : A -> C) l :
   (forall x, R (f x) (g x)) -> Forall2 R (map f l) (map g l).
 Proof. intro H. induction l; simpl; constructor; auto. Qed.
+
+Lemma inject_Z_sub a b : (inject_Z (a - b) == inject_Z a - inject_Z b)%Q.
+Proof. unfold Z.sub, Qminus. rewrite inject_Z_plus, inject_Z_opp. reflexivity. Qed.
+
+Theorem gen_risk_pixel_eq mn mx etas c : ~ (mn == mx)%Q ->
+  exists a b, grisk_pixel mn mx etas c = Some (a, b)
+              /\ xeq a (of_oq (fst (risk_pixel mn mx etas c))) /\ xeq b (of_oq (snd (risk_pixel mn mx etas c))).
+Proof.
+  intro Hs. unfold grisk_pixel. destruct (gen_samp_pixel_eq mn mx etas c Hs) as (r0 & Hsamp & _). rewrite Hsamp.
+  unfold G.compute_risk_pixel, samp_pixel, risk_pixel. rewrite np_nanmin_embed.
+  destruct (nanmin c) as [m|] eqn:Hm; cbn [of_oq xsub xdiv xadd xneg xisnan].
+  2:{ eexists _, _. split; [reflexivity|]. split; exact I. }
+  rewrite (qeqb_span _ _ Hs). cbn [xisnan]. rewrite (norm_embed _ _ _ Hs), setmask_isnan.
+  change ((m - mn) / (mx - mn))%Q with (norm mn mx m).
+  change (map (fun x => if xisnan x then XMInf else x)) with (map msk).
+  set (nc := ncurve mn mx c). set (nmin := norm mn mx m).
+  assert (Hl : length (map msk (xcurve nc)) = length c).
+  { unfold xcurve, nc, ncurve. rewrite !map_length. reflexivity. }
+  destruct (cmp_grid xgt _ (XFin nmin) etas c Hl) as (t & H1 & H2). rewrite H1, H2.
+  change (vs xmul (v_ofz (np_arange (vlen c))) (XFin (1 # 1))) with (map (fun x => xmul x (XFin 1)) (map xofz (np_arange (vlen c)))).
+  rewrite map_map. change (fun x : Z => xmul (xofz x) (XFin 1)) with dval.
+  unfold v_setmask. rewrite vlen_xetas.
+  assert (Hd : length (map dval (np_arange (vlen c))) = length (map msk (xcurve nc))).
+  { rewrite Hl. unfold np_arange, vlen. rewrite !map_length, seq_length, Nat2Z.id. reflexivity. }
+  rewrite vv2_some by (rewrite np_repeat_length, grid_length, Hd; reflexivity).
+  rewrite (setmask_grid _ _ _ _ _ Hd).
+  assert (Hc : length (combine (map dval (np_arange (vlen c))) (map msk (xcurve nc))) = length c).
+  { rewrite combine_length, Hd, Hl. lia. }
+  rewrite <- vlen_xetas. rewrite (reshape_grid _ _ _ _ Hc). rewrite vlen_xetas.
+  set (ps := combine (map dval (np_arange (vlen c))) (map msk (xcurve nc))).
+  rewrite (for_range_tab2 (Z.of_nat (length etas)) _
+             (fun j => np_nanmin (map (fun p => keep (nmin + nth j etas 0%Q) p) ps))
+             (fun j => np_nanmax (map (fun p => keep (nmin + nth j etas 0%Q) p) ps))).
+  2,3: unfold np_zeros; rewrite repeat_length; reflexivity.
+  2:{ rewrite Nat2Z.id. intros i a b Hi Ha Hb. unfold m_col. cbn [mcols mrows].
+      rewrite (norm_index_nat _ _ Hi), (col_grid _ _ _ _ 0%Q Hi).
+      unfold v_store, vlen. rewrite Ha, Hb, (norm_index_nat _ _ Hi). reflexivity. }
+  rewrite Nat2Z.id.
+  rewrite (map_seq_nth (fun e => np_nanmin (map (fun p => keep (nmin + e) p) ps)) etas 0%Q).
+  rewrite (map_seq_nth (fun e => np_nanmax (map (fun p => keep (nmin + e) p) ps)) etas 0%Q).
+  assert (Hnc : length nc = length c) by (unfold nc, ncurve; apply map_length).
+  assert (Hmin : forall b, np_nanmin (map (fun p => keep b p) ps) = dopt (zmin_l (kept_from 0 b nc))).
+  { intro b. unfold ps, np_arange, vlen. rewrite Nat2Z.id, <- Hnc. apply (kept_min b nc 0). }
+  assert (Hmax : forall b, np_nanmax (map (fun p => keep b p) ps) = dopt (zmax_l (kept_from 0 b nc))).
+  { intro b. unfold ps, np_arange, vlen. rewrite Nat2Z.id, <- Hnc. apply (kept_max b nc 0). }
+  rewrite (map_ext _ _ (fun e => Hmin (nmin + e)%Q)), (map_ext _ _ (fun e => Hmax (nmin + e)%Q)).
+  rewrite vv2_some by (rewrite !map_length; reflexivity). rewrite zip2_maps.
+  unfold sv, v_ofz. rewrite !map_map.
+  rewrite vv2_some by (rewrite !map_length; reflexivity). rewrite zip2_maps.
+  eexists _, _. split; [reflexivity|]. cbn [fst snd]. split.
+  - rewrite <- np_nanmean_embed. apply np_nanmean_xeq. rewrite !map_map. apply Forall2_map_same. intro e.
+    unfold spread. destruct (zmin_l (kept_from 0 (nmin + e) nc)), (zmax_l (kept_from 0 (nmin + e) nc)); cbn; auto.
+    rewrite inject_Z_sub. ring.
+  - rewrite <- np_nanmean_embed. apply np_nanmean_xeq. rewrite map2_map, !map_map. apply Forall2_map_same. intro e.
+    unfold spread. destruct (zmin_l (kept_from 0 (nmin + e) nc)), (zmax_l (kept_from 0 (nmin + e) nc));
+      cbn [of_oq option_map dopt]; unfold dval; cbn [xsub xadd xneg xeq xmul xofz]; auto.
+    rewrite !inject_Z_sub, inject_Z_plus, inject_Z_sub. ring.
+Qed.
